@@ -209,9 +209,13 @@ def run_check(prop, tier, verif_seed, runs=None, workers=None, shrink=True, quie
     first_rec = None
     import hashlib
     batch = hashlib.sha256()
+    first_digests = {}
+    n_recheck = 40 if tier == "quick" else 400
     for _, a in aggs:
         for i, dg in a["digests"]:
             batch.update(f"{i}:{dg};".encode())
+            if i < n_recheck:
+                first_digests[i] = dg
         n_ok += a["n_ok"]
         harness_errors.extend(a["harness"])
         if first_rec is None:
@@ -238,6 +242,20 @@ def run_check(prop, tier, verif_seed, runs=None, workers=None, shrink=True, quie
     samples = [{k: r[k] for k in r if k != "sim_version"} for r in samples]
     if not samples and first_rec is not None:
         samples.append(first_rec)
+
+    # determinism cross-check: the first runs are executed again in THIS process (another heap, another import order)
+    # and must produce the same event digests as in the worker processes
+    det = {"runs_rechecked": 0, "identical": True}
+    t_det = time.time()
+    for i in sorted(first_digests):
+        if time.time() - t_det > (20 if tier == "quick" else 120):
+            break
+        res_i = execute_record(prop, generate_record(prop, verif_seed, i))
+        det["runs_rechecked"] += 1
+        if res_i.digest != first_digests[i]:
+            det["identical"] = False
+            harness_errors.append(f"nondeterministic simulation: run {i} digest {first_digests[i]} in a worker, {res_i.digest} when re-executed")
+            break
 
     violations_out = []
     os.makedirs(OUT_DIR, exist_ok=True)
@@ -290,6 +308,7 @@ def run_check(prop, tier, verif_seed, runs=None, workers=None, shrink=True, quie
             "violation_classes": {c: n for c, _, n in violations_out},
             "harness_errors": len(harness_errors),
             "batch_digest": "sha256:" + batch.hexdigest(),
+            "determinism_selftest": det,
             "workers": workers,
             "extension_fingerprint": extension_fingerprint(),
         },
